@@ -21,7 +21,7 @@ SEC = D.timedelta(seconds=1)
 
 
 def make(name, cache):
-    from dateutil.rrule import rrule, rruleset, DAILY, HOURLY, WEEKLY, MONTHLY
+    from dateutil.rrule import rrule, rruleset, DAILY, HOURLY, WEEKLY, MONTHLY, YEARLY
     if name == 'empty':
         return rrule(DAILY, dtstart=D0, until=D0 - DAY, cache=cache)
     if name == 'one':
@@ -34,6 +34,14 @@ def make(name, cache):
         return rrule(HOURLY, dtstart=D0, count=23, byminute=(0, 30), cache=cache)
     if name == 'monthly10':
         return rrule(MONTHLY, dtstart=D0, count=10, bymonthday=(2, -1), cache=cache)
+    if name == 'setpos7':
+        return rrule(MONTHLY, dtstart=D0, count=7, byweekday=(0, 1, 2, 3, 4), bysetpos=(1, -1), cache=cache)
+    if name == 'setpos-until':
+        return rrule(WEEKLY, dtstart=D0, until=D0 + 30 * DAY, byweekday=(1, 3, 6), bysetpos=-1, cache=cache)
+    if name == 'weekly-defaults':
+        return rrule(WEEKLY, dtstart=D0, count=11, interval=2, wkst=3, cache=cache)     # weekday taken from the start
+    if name == 'yearly-defaults':
+        return rrule(YEARLY, dtstart=D0, count=3, cache=cache)                          # month and day taken from the start
     if name == 'set':
         s = rruleset(cache=cache)
         s.rrule(rrule(DAILY, dtstart=D0, count=6))
@@ -51,7 +59,8 @@ def make(name, cache):
     raise ValueError(name)
 
 
-OBJECTS = ['empty', 'one', 'daily5', 'alt12', 'hourly23', 'monthly10', 'set', 'set11']
+OBJECTS = ['empty', 'one', 'daily5', 'alt12', 'hourly23', 'monthly10', 'setpos7', 'setpos-until', 'weekly-defaults',
+           'yearly-defaults', 'set', 'set11']
 
 
 def instants(L):
@@ -243,11 +252,16 @@ def replace_cases():
             dict(freq=2, dtstart=D0, until=D0 + 30 * DAY, byweekday=(1, 6), wkst=6, interval=2),
             dict(freq=1, dtstart=D0, count=6, bymonthday=(1, -1), bysetpos=-1),
             dict(freq=0, dtstart=D0, count=4, byweekno=1, byweekday=0, cache=True),
-            dict(freq=4, dtstart=D0, count=30, byminute=(0, 30), bysecond=5)]
+            dict(freq=4, dtstart=D0, count=30, byminute=(0, 30), bysecond=5),
+            # rules whose BY-parts are defaults taken from the start: a replaced start must move them along
+            dict(freq=2, dtstart=D0, count=6), dict(freq=1, dtstart=D0, count=5), dict(freq=0, dtstart=D0, count=3),
+            dict(freq=2, dtstart=D0, count=8, interval=2, wkst=2), dict(freq=3, dtstart=D0, count=4, byhour=(9, 21))]
     changes = [('interval', 3), ('count', 2), ('count', None), ('until', D0 + 3 * DAY), ('dtstart', D0 + DAY + SEC),
                ('freq', 3), ('freq', 1), ('wkst', 3), ('bysetpos', 1), ('bymonth', (9, 10)), ('bymonthday', 3),
                ('byyearday', (245, 246, 250)), ('byweekno', 36), ('byweekday', 1), ('byeaster', 0), ('byhour', (9, 10)),
-               ('byminute', 15), ('bysecond', (0, 30)), ('cache', True), ('cache', False)]
+               ('byminute', 15), ('bysecond', (0, 30)), ('cache', True), ('cache', False),
+               ('dtstart', D0 + 33 * DAY), ('dtstart', (D0 - 400 * DAY).replace(hour=23, minute=59, second=59)), ('byweekday', None),
+               ('bymonthday', None), ('interval', 1), ('wkst', 0)]
     out = []
     for bi in range(len(base)):
         for ch in changes:
